@@ -1,9 +1,9 @@
-\* verification flow: node 1 verifies attestation 1 of node 2 (2 bit-pairs), honesty checks, duplicates, losses, time-outs
+\* thorough: three bit-pairs, one honesty check, one duplicate, one time-out
 SPECIFICATION Spec
 CONSTANTS
  Nodes = {1, 2} Adv = {} Requesters = {} Verifiers = {1}
- Values <- Vals1 NChunks = 2 Window = 10 Pre <- PreOwn2
- MaxReq = 0 MaxVer = 1 MaxHon = 1 MaxDup = 1 MaxDrop = 1 MaxAdv = 0 MaxTimeouts = 1 MaxTicks = 0
+ Values <- Vals1 NChunks = 2 Window = 10 Pre <- PreOwn2x3
+ MaxReq = 0 MaxVer = 1 MaxHon = 1 MaxDup = 1 MaxDrop = 0 MaxAdv = 0 MaxTimeouts = 1 MaxTicks = 0
  AdvKinds = {"junk", "data", "resp", "chal"} AdvResps = {0, 1, 2, 3}
  TickSteps = {}
  OnceOnly = TRUE CheckPeer = TRUE CheckHash = TRUE AskConsent = TRUE
